@@ -1620,7 +1620,8 @@ def do_define_meson(regex: T.Pattern[str], line: str, confdata: 'ConfigurationDa
         raise MesonException('#mesondefine argument "%s" is of unknown type.' % varname)
 
 def do_define_cmake(line: str, confdata: 'ConfigurationData', at_only: bool,
-                    subproject: T.Optional[SubProject] = None) -> str:
+                    subproject: T.Optional[SubProject] = None,
+                    missing_variables: T.Optional[T.Set[str]] = None) -> str:
     cmake_bool_define = 'cmakedefine01' in line
 
     def get_cmake_define(line: str, confdata: 'ConfigurationData') -> str:
@@ -1659,7 +1660,9 @@ def do_define_cmake(line: str, confdata: 'ConfigurationData', at_only: bool,
 
     result = get_cmake_define(line, confdata)
     result = f'#define {varname} {result}'.strip() + '\n'
-    result, _ = do_replacement_cmake(result, at_only, confdata)
+    result, missing = do_replacement_cmake(result, at_only, confdata)
+    if missing_variables is not None:
+        missing_variables.update(missing)
     return result
 
 def get_variable_regex(variable_format: Literal['meson', 'cmake', 'cmake@'] = 'meson') -> T.Pattern[str]:
@@ -1749,7 +1752,7 @@ def do_conf_str_cmake(src: str, data: T.List[str], confdata: 'ConfigurationData'
                 from ..interpreterbase.decorators import FeatureNew
                 FeatureNew.single_use('whitespace between `#` and `cmakedefine`', '1.9.0', subproject)
             confdata_useless = False
-            line = _keep_line_ending(line, do_define_cmake(line, confdata, at_only, subproject))
+            line = _keep_line_ending(line, do_define_cmake(line, confdata, at_only, subproject, missing_variables))
         else:
             if '#mesondefine' in line:
                 raise MesonException(f'Format error in {src}: saw "{line.strip()}" when format set to "{variable_format}"')
